@@ -70,6 +70,18 @@ class Cell:
     def __init__(self, v): self.v = v
 
 
+def _conjuncts(t):
+    if t.op == 'and':
+        out = []
+        for a in t.args:
+            out.extend(_conjuncts(a))
+        return out
+    if t.op == 'ite' and t.sort == smt.BOOL and (smt.is_false(t.args[2]) or t.args[2] == t.args[0]):
+        # python `a and b` on booleans is ite(a, b, a)
+        return _conjuncts(t.args[0]) + _conjuncts(t.args[1])
+    return [t]
+
+
 class Obligation:
     def __init__(self, name, kind, goal, pc, where, inputs):
         self.name = name
@@ -413,6 +425,15 @@ class Interp:
     def oblige(self, name, kind, goal, where=''):
         if smt.is_true(goal):
             goal = smt.TRUE
+        if getattr(self.env, 'split_goals', False):
+            # a conjunction is proved conjunct by conjunct, each under the previous ones (a, a => b)
+            parts = _conjuncts(goal)
+            if len(parts) > 1:
+                pc = list(self.pc)
+                for k, part in enumerate(parts):
+                    self.obligations.append(Obligation('%s#c%d' % (name, k), kind, part, list(pc), where, self.inputs))
+                    pc.append(part)
+                return
         self.obligations.append(Obligation(name, kind, goal, self.pc, where, self.inputs))
 
     # ------------------------------------------------------------ truthiness etc.
